@@ -1206,6 +1206,7 @@ class ChoicePayloadDecoder(ConstructedPayloadDecoderBase):
 
                 if isinstance(component, SubstrateUnderrunError):
                     yield component
+                    continue
 
                 if component is eoo.endOfOctets:
                     break
